@@ -53,7 +53,7 @@ func c06(r *hx.Run) {
 	fx.Quiet()
 	client, v := stdClient()
 	delta := v.P.MaxOperationTimeDelta
-	r.Rule = "for every history of <=3 (thorough: <=4 over a sub-alphabet) anchored operations (legitimate alphabet, published and unpublished, non-monotone coordinates) x every cut time T in {pre-epoch, 0..maxTime+1} x every version id present or unknown x every single later-anchored extension (placed in the store, and passed by the caller through WithAdditionalOperations before and after the version option): Resolve(history, WithVersionTime/WithVersionID) on the real processor must equal Resolve over the truncated history on the real processor (metamorphic) and the reference model; unknown version id / empty truncation must be an error. The same cuts go through the REST resolve handler (versionId / versionTime / both) for two histories, addressed by the short-form and by the long-form DID: status and document must agree with the processor view (an unknown version of an anchored DID is an error in both forms). Non-trivial: the cut removes at least one and keeps at least one operation."
+	r.Rule = "for every history of <=3 (thorough: <=4 over a sub-alphabet) anchored operations (legitimate alphabet, published and unpublished, non-monotone coordinates) x every cut time T in {pre-epoch, 0..maxTime+1} x every version id present or unknown x every single later-anchored extension (placed in the store, and passed by the caller through WithAdditionalOperations before and after the version option; every cut also with unset (nil) options around the version option): Resolve(history, WithVersionTime/WithVersionID) on the real processor must equal Resolve over the truncated history on the real processor (metamorphic) and the reference model; unknown version id / empty truncation must be an error. The same cuts go through the REST resolve handler (versionId / versionTime / both) for two histories, addressed by the short-form and by the long-form DID: status and document must agree with the processor view (an unknown version of an anchored DID is an error in both forms). Non-trivial: the cut removes at least one and keeps at least one operation."
 	pool := fx.NewPool(fx.Ed25519, fx.SHA256, "ok")
 	alpha := []string{"C", "C~h", "U01", "U01b", "U12", "U01~w", "U01~p", "R01", "R12", "V01", "D0", "D1", "Fc(U01)", "U10"}
 	grid := []Coord{{1, 0}, {1, 2}, {2, 0}, {2, 1}, {3, 0}}
@@ -91,6 +91,12 @@ func c06(r *hx.Run) {
 					}
 				}
 				got := projectHist(ResolveImpl(client, pool.Suffix, placed, document.WithVersionTime(ts)))
+				// unset (nil) options around the version option are skipped, not a reason to drop the options behind them
+				if gotNil := projectHist(ResolveImpl(client, pool.Suffix, placed, nil, document.WithVersionTime(ts), nil)); gotNil != got {
+					r.Violation("version-time-nil-option:"+diffFields(gotNil.R, got.R), caseID+"|nil-options",
+						fmt.Sprintf("history %v at T=%d: Resolve(nil, WithVersionTime, nil) differs from Resolve(WithVersionTime)\n  with nils: %s\n  without  : %s", placedDesc(placed), T, gotNil.R, got.R), nil)
+				}
+				r.Eval()
 				if len(placed) > 1 {
 					rev := make([]fx.Placed, len(placed))
 					for ri := range placed {
@@ -179,6 +185,11 @@ func c06(r *hx.Run) {
 					}
 				}
 				got := projectHist(ResolveImpl(client, pool.Suffix, placed, document.WithVersionID(V)))
+				if gotNil := projectHist(ResolveImpl(client, pool.Suffix, placed, nil, document.WithVersionID(V), nil)); gotNil != got {
+					r.Violation("version-id-nil-option:"+diffFields(gotNil.R, got.R), caseID+"|nil-options",
+						fmt.Sprintf("history %v at versionId %s: Resolve(nil, WithVersionID, nil) differs from Resolve(WithVersionID)\n  with nils: %s\n  without  : %s", placedDesc(placed), V, gotNil.R, got.R), nil)
+				}
+				r.Eval()
 				// the store may return operations in any order: reversed order must give the same historical view
 				rev := make([]fx.Placed, len(placed))
 				for ri := range placed {
